@@ -121,6 +121,9 @@ def np_full(it, shape, val, dtype=None, **k):
 
 @np_fn('zeros_like')
 def np_zeros_like(it, a, dtype=None, **k):
+    if isinstance(a, Obj) and a.tag == 'mat':
+        from . import matalg as MA_
+        return MA_.wrap(MA_.Mat(), S.kind_from_dtype(dtype) or a.fields['kind'])
     if isinstance(a, Obj) and a.cls is not None:
         raise Unsupported('zeros_like on object')
     kind = S.kind_from_dtype(dtype) or kind_of(a)
@@ -397,6 +400,9 @@ def _ew1(fn, kind=None):
     def g(it, a, *rest, out=None, **k):
         if isinstance(a, (list, tuple)):
             a = to_carr(a)
+        if isinstance(a, Obj) and a.tag == 'mat' and fn is V.conj:
+            from . import matalg as MA_
+            return MA_.wrap(a.fields['m'].conj(), a.fields['kind'])
         if isinstance(a, Obj):
             raise Unsupported('ufunc on object')
         r = elementwise(it.ctx, fn, a, kind=kind)
@@ -647,6 +653,7 @@ def _larr_sum(it, a, axis):
     ctx.hyps.append(z3.ForAll(qs + [t], z3.Implies(t >= 0, P(*qs, t + 1) == P(*qs, t) + term), patterns=[P(*qs, t + 1)]))
     res = LArr(out_shape, lambda i, P=P, n=n: P(*[V.zint(x) for x in i], V.zint(n)), 'real' if real else 'int')
     res.meta['axsum'] = (P, snap, axis, n)
+    ctx.__dict__.setdefault('axsum_log', []).append((P, snap, axis, n))
     return res
 
 
@@ -1292,6 +1299,8 @@ def ns_attr(it, ns, name):
             raise Unsupported('np.random')
         if name in ('int', 'float', 'complex', 'bool'):
             return T.TypeTag(name)
+    if n in ('np.linalg', 'spla') and name == 'LinAlgError':
+        return T.ExcClass('LinAlgError')
     if n == 'scipy':
         sub = {'sparse': 'sps', 'linalg': 'spla', 'special': 'spsp', 'signal': 'spsig'}.get(name)
         if sub:
@@ -1674,3 +1683,131 @@ def np_count_nonzero(it, a, axis=None, **k):
         return V.ite(f, 1, 0)
     flags = CArr(uf(nz, 1)(a.data), 'int')
     return reduce_axis(it.ctx, V.add, flags, axis, 0)
+
+
+# ------------------------------------------------------------------------------------------------ scipy.linalg contracts (matrix-algebra level)
+from . import matalg as MA
+
+
+def _is_mat(x):
+    return isinstance(x, Obj) and x.tag == 'mat'
+
+
+@np_fn('lu', ns='spla')
+def spla_lu(it, A, **k):
+    """A = P L U, P a real permutation matrix"""
+    if not _is_mat(A):
+        raise Unsupported('scipy.linalg.lu on index-level arrays')
+    kind = A.fields['kind']
+    P = MA.Mat.atom(MA.fresh_name('P'), {'real', 'orthogonal'})
+    L = MA.Mat.atom(MA.fresh_name('L'), {'real'} if kind != 'complex' else ())
+    U = MA.Mat.atom(MA.fresh_name('U'), {'real'} if kind != 'complex' else ())
+    _define(A, P @ L @ U)
+    return (MA.wrap(P, 'real'), MA.wrap(L, kind), MA.wrap(U, kind))
+
+
+def _define(A, word):
+    m = A.fields['m']
+    if len(m.terms) != 1:
+        raise Unsupported('factorisation of a compound matrix expression')
+    (w, c), = m.terms.items()
+    if len(w) != 1 or not (not is_sym(c) and c == 1):
+        raise Unsupported('factorisation of a compound matrix expression')
+    n, t, cj, i = w[0]
+    d = word
+    if i:
+        d = d.inv()
+    if cj:
+        d = d.conj()
+    if t:
+        d = d.T()
+    if n in MA.DEFS:
+        raise Unsupported('matrix factorised twice in one harness')
+    MA.DEFS[n] = d
+
+
+@np_fn('qr', ns='spla')
+def spla_qr(it, A, **k):
+    """A = Q R, Q unitary"""
+    kind = A.fields['kind']
+    Q = MA.Mat.atom(MA.fresh_name('Q'), {'unitary'} | ({'real'} if kind != 'complex' else set()))
+    R = MA.Mat.atom(MA.fresh_name('R'), {'real'} if kind != 'complex' else ())
+    _define(A, Q @ R)
+    return (MA.wrap(Q, kind), MA.wrap(R, kind))
+
+
+@np_fn('cholesky', ns='spla')
+def spla_cholesky(it, A, lower=False, **k):
+    """A = U^H U for Hermitian positive definite A; raises LinAlgError otherwise (the harness decides which case is explored)"""
+    if it.ctx.__dict__.get('cholesky_fails'):
+        raise PyExc('LinAlgError', 'matrix is not positive definite')
+    kind = A.fields['kind']
+    U = MA.Mat.atom(MA.fresh_name('Uc'), {'real'} if kind != 'complex' else ())
+    _define(A, U.H() @ U)
+    return MA.wrap(U, kind)
+
+
+@np_fn('ldl', ns='spla')
+def spla_ldl(it, A, lower=True, hermitian=True, **k):
+    """A = L D L^H (hermitian=True) or L D L^T; returns (L, D, perm) where L[perm] is unit lower triangular; D is Hermitian resp. symmetric"""
+    kind = A.fields['kind']
+    herm = it.truth(hermitian)
+    L = MA.Mat.atom(MA.fresh_name('Ll'), {'real'} if kind != 'complex' else ())
+    D = MA.Mat.atom(MA.fresh_name('D'), ({'real'} if kind != 'complex' else set()) | ({'hermitian'} if herm else {'symmetric'}))
+    _define(A, L @ D @ (L.H() if herm else L.T()))
+    Pi = MA.Mat.atom(MA.fresh_name('Pi'), {'real', 'orthogonal'})
+    return (MA.wrap(L, kind), MA.wrap(D, kind), Obj(None, {'m': Pi}, tag='perm'))
+
+
+@np_fn('solve_triangular', ns='spla')
+def spla_solve_triangular(it, T, b, trans=0, lower=False, unit_diagonal=False, **k):
+    """op(T)^-1 b with op = id / ^T / ^H for trans in {0,'N'} / {1,'T'} / {2,'C'}"""
+    Tm, bm = MA.unwrap(T), MA.unwrap(b)
+    if trans in (0, 'N'):
+        op = Tm
+    elif trans in (1, 'T'):
+        op = Tm.T()
+    elif trans in (2, 'C'):
+        op = Tm.H()
+    else:
+        raise PyExc('ValueError', 'invalid trans')
+    return MA.wrap(op.inv() @ bm, 'complex' if 'complex' in (T.fields['kind'], b.fields['kind']) else 'real')
+
+
+@np_fn('inv', ns='np.linalg')
+def la_inv(it, A):
+    if _is_mat(A):
+        return MA.wrap(MA.unwrap(A).inv(), A.fields['kind'])
+    raise Unsupported('np.linalg.inv on index-level arrays')
+
+
+@np_fn('diag')
+def np_diag(it, a, k=0):
+    if _is_mat(a):
+        return Obj(None, {'of': a, 'inverted': False}, tag='diagvec')
+    if isinstance(a, Obj) and a.tag == 'diagvec':
+        # np.diag(np.diag(D))       = D      for a diagonal D  (the caller has established matrix_is_diagonal(D))
+        # np.diag(1 / np.diag(D))   = D^-1
+        D = a.fields['of']
+        return MA.wrap(MA.unwrap(D).inv() if a.fields['inverted'] else MA.unwrap(D), D.fields['kind'])
+    a = a if is_arr(a) else to_carr(a)
+    if isinstance(a, CArr):
+        if a.ndim == 1:
+            n = a.shape[0]
+            d = np.empty((n, n), dtype=object)
+            d[...] = 0
+            for i in range(n):
+                d[i, i] = a.data[i]
+            return CArr(d)
+        return CArr(np.diagonal(a.data, k).copy())
+    raise Unsupported('np.diag on symbolic-shape array')
+
+
+def _diagvec_binop(it, on, a, b):
+    if on == 'Div' and V.is_scalar(a) and not is_sym(a) and V.exact(a) == 1 and isinstance(b, Obj) and b.tag == 'diagvec':
+        return Obj(None, {'of': b.fields['of'], 'inverted': not b.fields['inverted']}, tag='diagvec')
+    return NotImplemented
+
+
+S.OBJ_BINOP['diagvec'] = _diagvec_binop
+MA.install(S, __import__('sys').modules[__name__])
